@@ -205,6 +205,9 @@ def check(run):
     run.clause('R1 no closure, handler or packet field is filled by std::move of an object that a later iteration of the same loop moves again (moved-from reuse: only the first segment would carry its drop callback / only the first completion its handler)')
     nmv = engines.moved_in_loop(run, [f_ for f_ in fx.repo_functions() if f_.file.startswith(simlib.REPO_PREFIX + 'src/')])
     run.ok('R1', 'moved-from-in-loop', 'scan', '', 'std::move sites inside loops examined: %d' % nmv, nontrivial=False)
+    run.clause('every packet that enters a queue is forwarded exactly once even when forwarding re-enters the same queue (half-duplex hop): the sender is never started twice (shared with C09)')
+    import p09 as _p09
+    _p09.reentrancy_rule(run)
     run.floor('R9', 2)
     run.floor('R5', 4)
 
